@@ -620,3 +620,13 @@ func Units(tier string) []Unit {
 	}
 	return us
 }
+
+// TinyUnits returns the units enumerating every string magic + exactly... up to k bytes,
+// split by the first two tail bytes when k >= 4 (65536 units would be too many: 256 units of 2^24).
+func TinyUnits(k int) []Unit {
+	var us []Unit
+	for x := 0; x < 256; x++ {
+		us = append(us, tinyUnit(x, k))
+	}
+	return us
+}
